@@ -70,6 +70,14 @@ Proof. intros bs ofs key Hbs L E ct ops s. exact (hst_history bs ofs key Hbs L E
 Theorem C19_reachable_states_qualify : forall bs ofs key, 0 < bs -> forall s ct, Reach bs ofs key s ct -> exists L E, Hst bs ofs key L E ct s.
 Proof. intros bs ofs key Hbs s ct Hr. destruct (reach_coherent bs ofs key Hbs s ct Hr) as (L & E & I & R). exists L, E. left. split; assumption. Qed.
 
+(* what a failed call leaves - a handle without a buffered block on a file that has data - acknowledges nothing: reads deliver nothing, writes are
+   refused and change nothing (so no write is reported as stored and then lost), until a seek has positioned the handle again *)
+Theorem C19_dead_handle_acknowledges_nothing : forall bs ofs (bad : Z -> bool) s, cur s = 0 ->
+  (forall n, fio_read bs ofs bad s n = (s, nil)) /\ (0 < fsize s -> forall data al, fio_write bs ofs bad s data al = (s, 0, al)).
+Proof.
+  intros bs ofs bad s Hc. split; [intros n; apply FileIOFr.dead_handle_reads_nothing, Hc|intros Hs data al; apply FileIOFr.dead_handle_refuses_writes; assumption].
+Qed.
+
 (* (the fault model of these theorems is a set of unreadable blocks that is FIXED during a call; a block that fails once and then reads - a
    transient fault - is in the enumeration of checks/c19.py only.  The FFS-only statement below is kept: it says more - the success is the very
    state the fault-free seek produces.) *)
@@ -87,6 +95,7 @@ Print Assumptions C19_ffs_seek_success_is_the_faultfree_seek_partial.
 Print Assumptions C19_seek_success_is_coherent.
 Print Assumptions C19_any_history_of_reads_and_seeks_under_faults.
 Print Assumptions C19_reachable_states_qualify.
+Print Assumptions C19_dead_handle_acknowledges_nothing.
 Print Assumptions C19_read_after_faulty_seek_returns_true_bytes.
 Print Assumptions C19_read_returns_only_true_bytes_partial.
 Print Assumptions C19_refusal_is_an_error.
